@@ -93,6 +93,24 @@ pub fn worker_handle(req: &Value) -> Value {
             if req["want_geometry"].as_bool().unwrap_or(false) {
                 ev.insert("geom".into(), crate::geom::geometry_of(&m));
             }
+            if req["want_indicators"].as_bool().unwrap_or(false) {
+                // the quantities a turn of the building must leave unchanged
+                let r = catch(std::panic::AssertUnwindSafe(|| m.energy_indicators()));
+                let qq = |v: f32, s: f64| -> i64 { let x = v as f64 * s; if x.is_finite() && x.abs() < 2.0e9 { x.round() as i64 } else { -999999 } };
+                match r {
+                    Ok(ind) => {
+                        let mut us: Vec<(String, i64)> = m.walls.iter().map(|w| (w.name.clone(), ind.props.walls.get(&w.id).and_then(|p| p.u_value).map(|u| qq(u, 10000.0)).unwrap_or(-1))).collect();
+                        us.extend(m.windows.iter().map(|w| (w.name.clone(), ind.props.windows.get(&w.id).and_then(|p| p.u_value).map(|u| qq(u, 10000.0)).unwrap_or(-1))));
+                        ev.insert("ind".into(), json!({"ok": true, "K": qq(ind.K_data.K, 10000.0), "n50": qq(ind.n50_data.n50, 10000.0), "area_ref": qq(ind.area_ref, 100.0),
+                            "vol_net": qq(ind.vol_env_net, 100.0), "vol_gross": qq(ind.vol_env_gross, 100.0), "compacity": qq(ind.compactness, 10000.0),
+                            "u": us.iter().map(|x| x.1).collect::<Vec<_>>(),
+                            "space_areas": m.spaces.iter().map(|s| qq(s.area(&m.walls), 100.0)).collect::<Vec<_>>()}));
+                    }
+                    Err(site) => {
+                        ev.insert("ind".into(), json!({"ok": false, "site": site}));
+                    }
+                }
+            }
         }
         Err(e) => {
             let outcome = if e.starts_with("panic: ") { "panic" } else { "err" };
